@@ -160,6 +160,30 @@ def equilibrium_backward_error(nodes, A, Iy, Iz, J, E, G, loads, root, disp, flo
     return float(np.max(np.abs(r) / den))
 
 
+def roundoff_floor(nodes, A, Iy, Iz, J, E, G, loads, root, ulps=64.0):
+    """-> (translation floor, rotation floor): response of the beam to a perturbation of every load component by `ulps`
+    units of round-off of the largest load of its kind (moments: also the largest force times the extent of the beam).
+    No solver working in double precision can resolve displacements below this: a bending-soft spar (EI/L^2 ten decades
+    below EA) turns the 1e-16 relative rounding of a purely axial load into a rotation of that size."""
+    nodes = np.asarray(nodes, float)
+    n = nodes.shape[0]
+    K = assemble(nodes, A, Iy, Iz, J, E, G)
+    free = free_dofs(n, root)
+    Kff = K[np.ix_(free, free)]
+    sc = 1.0 / np.sqrt(np.diag(Kff))
+    F = np.abs(np.linalg.inv(Kff * sc[:, None] * sc[None, :]) * sc[:, None] * sc[None, :])
+    L = np.asarray(loads, float).reshape(n, 6)
+    lchar = 2.0 * float(np.max(np.sqrt(np.sum((nodes - nodes.mean(axis=0)) ** 2, axis=1))))
+    fmax = float(np.max(np.abs(L[:, :3])))
+    mmax = max(float(np.max(np.abs(L[:, 3:]))), fmax * lchar)
+    fmax = max(fmax, mmax / lchar)
+    df = np.tile(np.array([fmax] * 3 + [mmax] * 3), n)[free] * ulps * np.finfo(float).eps
+    du = np.zeros(6 * n)
+    du[free] = F @ df
+    du = du.reshape(n, 6)
+    return float(np.max(du[:, :3])), float(np.max(du[:, 3:]))
+
+
 def scaled_condition(nodes, A, Iy, Iz, J, E, G, root):
     """2-norm condition number of the symmetrically diagonal-scaled free-free stiffness matrix.  Measured on the
     unchanged tree: the forward error of the displacements under test is <= ~1.2 * eps * this number."""
